@@ -94,6 +94,12 @@ func (r *replayer) setup(e edge) *Adapter {
 	if err := ad.InstallLedger(e.To); err != nil {
 		r.t.Fatalf("setup ledger: %v", err)
 	}
+	// TIME: mine until the chain tip sits at the spec's distance from the contract's proof height
+	if want := int(ad.K.Rev.ProofHeight) + e.To.Tipd; e.To.Tipd != -2 && want > int(r.e.CM.Tip().Height) {
+		if err := r.e.Mine(types.VoidAddress, want-int(r.e.CM.Tip().Height)); err != nil {
+			r.t.Fatalf("setup mining: %v", err)
+		}
+	}
 	if err := ad.SetBase(e.To.Rev); err != nil {
 		r.t.Fatalf("setup: %v", err)
 	}
